@@ -1190,7 +1190,9 @@ class CursorClient(Client):
         ok, why = self._start_ok(s, a_start)
         if ok and end_ok:
             if c is not None and self.cur(s, c)[0] != 'P':
-                rep.bad('SCN-SPAN', f, call, construct, 'the token may be empty: the cursor has not provably advanced since the saved start (displacement %s)' % self.cur(s, c)[0], s)
+                d_ = self.cur(s, c)[0]
+                rep.bad('SCN-SPAN', f, call, construct, 'the token may be empty: the cursor has not provably advanced since the saved start (displacement %s)' % d_, s,
+                        **({'undecided': 'the cursor is positioned by code the cursor domain cannot follow'} if d_ == 'U' else {}))
             else:
                 rep.ok('SCN-SPAN', f, construct)
         elif not ok:
@@ -1226,7 +1228,8 @@ class CursorClient(Client):
         if not ok:
             rep.bad('SCN-SPAN', f, call, construct, 'start of the token span: ' + why, s)
         elif 'end' not in args and self.cur(s, c)[0] != 'P':
-            rep.bad('SCN-SPAN', f, call, construct, 'the token may be empty: the cursor has not provably advanced since the saved start', s)
+            rep.bad('SCN-SPAN', f, call, construct, 'the token may be empty: the cursor has not provably advanced since the saved start', s,
+                    **({'undecided': 'the cursor is positioned by code the cursor domain cannot follow'} if self.cur(s, c)[0] == 'U' else {}))
         else:
             rep.ok('SCN-SPAN', f, construct)
 
